@@ -40,6 +40,16 @@ CLAIMED = {
    text='Clauses, each a necessary condition: (R1) the layout loop cannot be left while an operand may be stale (CFG must-record rule) plus a two-reference template over all gap classes; (R2) every InstrLabel construction classifies its mnemonic as the ISA does; (R3) absolute references yield the word address when aligned and are rejected otherwise, for all residues; (R4) a label before DATA names the aligned word; (R5) layout offsets == bytes emitted == emitter\'s running offset == recorded symbol offsets for every directive kind/sequence x start residue; (R6) header length word; (R7) relative references are self-consistent and survive their encoding for every forward/backward gap class up to 2^22. Offsets are symbolic (start + constant), so each verdict covers all program sizes.',
    note='NOT decided: termination of the layout iteration for every program (the repaired code grows encodings monotonically, which bounds the passes, but the check does not prove it) and programs with more than two mutually dependent references beyond the CFG rule. Trusted: clang AST, interpreter, pc-relative/absolute tables of the property.',
    ref='DESIGN.md section 5, C05'),
+ 'C15': dict(
+   technique='static analysis: symbolic step summaries of Processor::run with tracing on (trace() interpreted, format-chain arguments compared as canonical terms per instruction byte); writer/reader I/O-sequence agreement over the AST; import of the layout==emission abstract interpretation for symbol offsets; lookupSymbol interpreted over the complete ordering domain of small tables',
+   text='Clauses: (R1) for all 240 bytes and both layouts the trace prefix is formatted from (count, address, symbol+offset, mnemonic of the executed opcode, low nibble) with no truncating precision; (R2) symbol-table writer and reader agree element for element; (R3) each FUNC/PROC symbol is recorded with its layout offset for all directive sequences/start residues, one symbol per procedure; (R4) lookupSymbol is correct for every position of the address among 1..3 ascending offsets. The consequence "entry sequence = call sequence" additionally needs C01, which is not decided.',
+   note='Trusted: clang AST; boost::format prints arguments in order. lookupSymbol with an empty table is only reached when debugInfo is non-empty (guarded in trace).',
+   ref='DESIGN.md section 5, C15'),
+ 'C17': dict(
+   technique='static analysis: abstract interpretation (affine offsets, abstract strings) of CodeGen::emitProgramText per directive kind; import of layout==emission (C05-R5) and of the value-class encoding check (C04) for the printed size/operand',
+   text='Structural whole: each listing line prints the layout offset, the text and the same virtual getSize() that drives emission, the operand shown is getValue() (what emission encodes), offsets printed are the offsets at which bytes are written (all directive kinds/sequences x start residues), the listed size/operand is what the emitted prefix chain decodes to (all value classes), and both entry points print the object that would be emitted.',
+   note='PADDING lines excluded (as in the property). The early-exit divergence described in the property text could not be reproduced on the pinned tree (listings described the - wrong - binary exactly); see DESIGN.md.',
+   ref='DESIGN.md section 5, C17'),
 }
 
 NOT_YET = 'engine not finished yet in this round (DESIGN.md section 7 build order); no check is registered, nothing is claimed'
